@@ -567,9 +567,9 @@ FORWARDERS = {
 
 PURE_TRAIT_METHODS = {
     "multiboot2_common::Header::payload_len", "multiboot2_common::Header::total_size",
-    "multiboot2_common::MaybeDynSized::dst_len", "multiboot2_common::MaybeDynSized::header",
-    "multiboot2_common::MaybeDynSized::payload", "multiboot2_common::MaybeDynSized::as_bytes",
-    "multiboot2_common::MaybeDynSized::as_ptr",
+    "multiboot2_common::tag::MaybeDynSized::dst_len", "multiboot2_common::tag::MaybeDynSized::header",
+    "multiboot2_common::tag::MaybeDynSized::payload", "multiboot2_common::tag::MaybeDynSized::as_bytes",
+    "multiboot2_common::tag::MaybeDynSized::as_ptr",
 }
 
 
@@ -740,6 +740,13 @@ def std_summary(tb, path, upath, fr, args):
         return ("min", args[0], args[1])
     if path in ("core::cmp::Ord::max", "core::cmp::max") or path.endswith("::max") and path.startswith("core::cmp::impls::<impl core::cmp::Ord for "):
         return ("max", args[0], args[1])
+    if path in ("core::option::Option::<T>::unwrap", "core::option::Option::<T>::expect"):
+        a = args[0]
+        if a[0] == "checked":
+            return ("bin", a[1], a[2][0], a[2][1], a[3])
+        return ("unwrap", a)
+    if path in ("core::result::Result::<T, E>::unwrap", "core::result::Result::<T, E>::expect"):
+        return ("unwrap", args[0])
     if path == "ptr_meta::from_raw_parts" or path == "ptr_meta::from_raw_parts_mut":
         return ("fatptr", args[0], args[1], g[0] if g else None)
     if path in ("core::slice::from_raw_parts", "core::slice::from_raw_parts_mut", "core::slice::raw::from_raw_parts",
